@@ -350,6 +350,15 @@ func genToError(name string, t *tape.Tape) *Shape {
 	if len(rs) > 0 {
 		boolRes = "(" + tyList(rs) + ", bool)"
 	}
+	namedResults := t.Chance(1, 3)
+	if namedResults {
+		// f with named results (value T, ok bool): names are not part of the type, the generated function must not depend on them
+		parts := make([]string, len(rs))
+		for i, r := range rs {
+			parts[i] = fmt.Sprintf("value%d %s", i, r.Go)
+		}
+		boolRes = "(" + strings.Join(append(parts, "ok bool"), ", ") + ")"
+	}
 	// the parameters of f keep their names in the function ToError returns: one in three shapes gives one of
 	// them a name the generated body uses itself (err is the supplied error there, f the function, success / out0 locals)
 	anames := vars("a", len(ps))
@@ -399,7 +408,7 @@ func Run() *seqrt.Result {
 }
 `, name, withErr(prefixed("d", rv), "derr"), prefixComma(splitArgs(args)), withErr(prefixed("x", rv), "rerr"), prefixComma(splitArgs(args)),
 		anyList(prefixed("d", rv)), anyList(prefixed("x", rv)), anyList(prefixed("d", rv)), anyList(prefixed("x", rv)))
-	return &Shape{Name: name, Kind: "toerror", Source: sb.String(), Decoded: map[string]any{"kind": "toerror", "params": tyList(ps), "param_names": strings.Join(anames, ","), "results": tyList(rs)}}
+	return &Shape{Name: name, Kind: "toerror", Source: sb.String(), Decoded: map[string]any{"kind": "toerror", "params": tyList(ps), "param_names": strings.Join(anames, ","), "named_results": namedResults, "results": tyList(rs)}}
 }
 
 // paramsAfter renders parameters that follow an earlier one.
